@@ -1,4 +1,5 @@
 import ChessVerif.Props.C13
+import ChessVerif.Props.C13skeleton
 #print axioms ChessVerif.Uci.no_panic
 #print axioms ChessVerif.Uci.one_readyok_per_isready
 #print axioms ChessVerif.Uci.one_readyok_per_isready_final
@@ -9,3 +10,16 @@ import ChessVerif.Props.C13
 #print axioms ChessVerif.Uci.deadlock_free
 #print axioms ChessVerif.Uci.deadlock_free_internal
 #print axioms ChessVerif.Uci.quit_or_eof_terminates
+#print axioms ChessVerif.Uci.Skeleton.run_matches
+#print axioms ChessVerif.Uci.Skeleton.readInput_matches
+#print axioms ChessVerif.Uci.Skeleton.handleInput_matches
+#print axioms ChessVerif.Uci.Skeleton.writeOutput_matches
+#print axioms ChessVerif.Uci.Skeleton.outputWrite_matches
+#print axioms ChessVerif.Uci.Skeleton.handleCommand_matches
+#print axioms ChessVerif.Uci.Skeleton.handleGo_matches
+#print axioms ChessVerif.Uci.Skeleton.handleEval_matches
+#print axioms ChessVerif.Uci.Skeleton.handlePerft_matches
+#print axioms ChessVerif.Uci.Skeleton.skeleton_matches
+#print axioms ChessVerif.Uci.Skeleton.touching_matches
+#print axioms ChessVerif.Uci.Skeleton.outputBufDepth_matches
+#print axioms ChessVerif.Uci.Skeleton.goroutine_counts
